@@ -161,7 +161,7 @@ private:
     auto oldState =
         opState_.fetch_and(~scopeEndedBit, std::memory_order_acq_rel);
 
-    if (use_count(oldState) == 0) {
+    if (!scope_ended(oldState) && use_count(oldState) == 0) {
       // there are no outstanding operations to wait for
       evt_.set();
     }
